@@ -311,7 +311,7 @@ def one_scenario(sc, idx, tier, seed, R, maxlen_m1):
         raise InternalError('non-deterministic replay for %r' % (sc.key(),))
     single = len(sc.items) == 1
     if tier == 'quick':
-        bound = 2 if (single and len(sc.data) <= 40) else 1
+        bound = 2 if ((single and len(sc.data) <= 40) or len(sc.data) <= 16) else 1
         shorts = 'few'
     else:
         bound = 3 if (single and len(sc.data) <= 24) else 2
